@@ -22,7 +22,14 @@ func main() {
 	scale := flag.Float64("scale", 1.0, "multiplies the case budget")
 	list := flag.Bool("list", false, "list engines")
 	dump := flag.Int("dump", 0, "print N generated cases with the implementation's answers and exit")
+	stress := flag.String("stress", "", "run the concurrency stress workload of an engine (conc); meant for a -race build")
+	seconds := flag.Int("seconds", 40, "duration of the stress workload")
+	work := flag.String("work", "", "scratch directory of the stress run (race detector logs)")
 	flag.Parse()
+
+	if *stress != "" {
+		os.Exit(runStress(*stress, *seconds, *seed, *work))
+	}
 
 	if *list {
 		for _, k := range sortedKeysE() {
